@@ -32,12 +32,21 @@ RULE = ("operand pairs drawn from a pool of interfaces / class specifications / 
         "non-trivial when at least one operand is an interface or class specification; distinct = "
         "distinct (kinds, same-object?, name-order, module-order) signature")
 TRUSTED_BASE = ["CPython rich-comparison protocol as modelled in Model/Order.v binop (validated by this correspondence)"]
-ASSUMPTIONS = ["interface __name__/__module__ are str and immutable after creation",
+ASSUMPTIONS = ["interface __name__/__module__ are str (or None for a descriptive name, only compared with other None names) and immutable after creation",
                "hash seed independence is observed over 4 processes, and by construction in the model"]
 
 NAMES = ["", "I", "IA", "IB", "IAB", "J", "Ié", "I\U0001F600", "m.C", "m.IA"]
 MODS = ["", "m", "m.n", "mn", "n", "zope.interface.declarations", "é"]
 KINDS = ["iface", "iface", "iface", "impl", "impl", "none", "named", "anon"]
+# "descriptive" names: Element.__init__ turns a name containing a space (and no docstring) into __doc__ and
+# leaves __name__ = None, so all such interfaces of one module have EQUAL keys (None, module); the key is
+# observed on the object, and None is written to Coq as a reserved string no generated name equals.
+SPACED = ["I A", "two words", " ", "I  ", " IA", "Marker for things", "é b"]
+NONE_NAME = "\x00None"
+
+
+def _nn(x):
+    return NONE_NAME if x is None else x
 
 
 def _operand(rng, i):
@@ -70,6 +79,19 @@ def generate(run, tier):
             if a["kind"] == b["kind"] and a["kind"] != "none" and a["id"] == b["id"]:
                 # a distinct object with the same key
                 cases.append({"a": a, "b": dict(b, id=b["id"] + 1000)})
+    # descriptive-name stream: only paired with each other, None and key-less foreign objects (a None name
+    # against a str name raises TypeError in both implementations and is outside the property's domain)
+    sp = 0
+    for na in SPACED:
+        for nb in SPACED[:4]:
+            for ma, mb in (("m", "m"), ("m", "n"), ("", ""), ("n", "m")):
+                cases.append({"a": {"kind": "iface", "id": 5000 + sp, "name": na, "module": ma},
+                              "b": {"kind": "iface", "id": 5001 + sp, "name": nb, "module": mb}})
+                sp += 2
+        for other in ({"kind": "none", "id": 0, "name": "", "module": ""}, {"kind": "anon", "id": 7000, "name": "", "module": ""}):
+            cases.append({"a": {"kind": "iface", "id": 5000 + sp, "name": na, "module": "m"}, "b": other}); sp += 1
+        d = {"kind": "iface", "id": 5000 + sp, "name": na, "module": "m"}; sp += 1
+        cases.append({"a": d, "b": d})
     for k in range(n):
         a = _operand(rng, 1)
         if rng.random() < 0.15:
@@ -90,7 +112,7 @@ KMAP = {"iface": "KIface", "impl": "KImpl", "none": "KNone", "named": "KNamed", 
 
 
 def _op(desc, key):
-    return "(mkOp %s %d %s %s)" % (KMAP[desc["kind"]], desc["id"], C.cstr_codes(key[0]), C.cstr_codes(key[1]))
+    return "(mkOp %s %d %s %s)" % (KMAP[desc["kind"]], desc["id"], C.cstr_codes(_nn(key[0])), C.cstr_codes(_nn(key[1])))
 
 
 def coq_case(case, obs, mode):
@@ -111,7 +133,8 @@ def classify(case, obs):
     if a["kind"] not in ("iface", "impl") and b["kind"] not in ("iface", "impl"):
         return None
     return (a["kind"], b["kind"], a["id"] == b["id"] and a["kind"] == b["kind"],
-            _cmp(obs["ka"][0], obs["kb"][0]), _cmp(obs["ka"][1], obs["kb"][1]))
+            _cmp(_nn(obs["ka"][0]), _nn(obs["kb"][0])), _cmp(_nn(obs["ka"][1]), _nn(obs["kb"][1])),
+            obs["ka"][0] is None, obs["kb"][0] is None)
 
 
 def kind(case, obs):
